@@ -4,9 +4,11 @@
   constructors statement by statement.  Generic in `K` (executable at `Float` in the
   driver, the theorems of C01 are about the instance `K = ℝ`).
 
-  * element-wise closed forms of the variable-substitution rules, the Trefethen maps and the
-    integer skeleton (loop bounds, denominators, frequencies) of Clenshaw–Curtis / Fejér come
-    from `Gen/OneDFormulas.lean` (regenerated from the source on every run);
+  * element-wise closed forms of the variable-substitution rules, the Trefethen maps, the
+    integer skeleton (loop bounds, denominators, frequencies) of Clenshaw–Curtis / Fejér and the
+    complete constructors (entries, lengths, guards, domain) of the six closed-form rules
+    Trapezoidal, Simpson, MidPoint, UniformInteger, GaussChebyshevLobatto, RectangleRuleSineEndPoints
+    come from `Gen/OneDFormulas.lean` (regenerated from the source on every run);
   * everything else is hand-written and tied to the code by correspondence
     (`harness/props/c01.py`);
   * NumPy/SciPy Gauss nodes enter as the parameter `gauss` (`n ↦ (points, weights)`).
@@ -40,10 +42,6 @@ variable {K : Type} [Add K] [Sub K] [Mul K] [Div K] [Neg K] [NatCast K] [Elem K]
 def intCast (z : Int) : K :=
   if z < 0 then -((z.natAbs : Nat) : K) else ((z.toNat : Nat) : K)
 
-/-- `xs[start:stop:step] *= c` for `0 ≤ start`, `1 ≤ step` (Python clips `stop` to the length). -/
-def mulSlice (start stop step : Nat) (c : K) (xs : List K) : List K :=
-  xs.mapIdx fun i x => if start ≤ i ∧ i < stop ∧ (i - start) % step = 0 then x * c else x
-
 /-- `xs[i] /= c`. -/
 def divAt (i : Nat) (c : K) (xs : List K) : List K :=
   xs.mapIdx fun j x => if j = i then x / c else x
@@ -75,101 +73,81 @@ def negOne : K := -((1 : Nat) : K)
 def one : K := ((1 : Nat) : K)
 def zero : K := ((0 : Nat) : K)
 
-/-! ### Newton–Cotes type rules -/
+/-! ### closed-form rules generated entry by entry
+
+`Trapezoidal`, `Simpson`, `MidPoint`, `UniformInteger`, `GaussChebyshevLobatto`,
+`RectangleRuleSineEndPoints`: entry `i` of `points` / `weights` (every assignment, slice update,
+reversal and the `bm @ sim` product of the constructor), the lengths, the `raise ValueError` guards and
+the declared domain are all regenerated from the source (`Gen/OneDFormulas.lean`); only the assembly
+"list of the entries, then `OneDGrid.__init__`" is written here. -/
 
 namespace Trapezoidal
-/-- `-1 + (2 * np.arange(n) / (n - 1))` -/
 def points (n : Nat) : List K :=
-  (List.range n).map fun i => -((1 : Nat) : K) + ((2 * i : Nat) : K) / ((n - 1 : Nat) : K)
-/-- `2 * np.ones(n) / (n - 1)`, then `weights[0] /= 2`, `weights[n - 1] /= 2`. -/
+  (List.range (Gen.OneD.Trapezoidal.pointsLen n)).map (Gen.OneD.Trapezoidal.pointAt n)
 def weights (n : Nat) : List K :=
-  divAt (n - 1) ((2 : Nat) : K) (divAt 0 ((2 : Nat) : K)
-    ((List.range n).map fun _ => ((2 : Nat) : K) * ((1 : Nat) : K) / ((n - 1 : Nat) : K)))
+  (List.range (Gen.OneD.Trapezoidal.weightsLen n)).map (Gen.OneD.Trapezoidal.weightAt n)
 def make [LT K] [DecidableLT K] (npoints : Int) : Except Err (Grid1D K) :=
-  if npoints ≤ 1 then .error .valueError else
+  if Gen.OneD.Trapezoidal.rejects npoints then .error .valueError else
   let n := npoints.toNat
-  oneDGrid (points n) (weights n) negOne (some one)
+  oneDGrid (points n) (weights n) Gen.OneD.Trapezoidal.lo Gen.OneD.Trapezoidal.hi
 end Trapezoidal
 
 namespace Simpson
 def points (n : Nat) : List K :=
-  (List.range n).map fun i => -((1 : Nat) : K) + ((2 * i : Nat) : K) / ((n - 1 : Nat) : K)
-/-- `2 * np.ones(n) / (3 * (n - 1))`, `weights[1:n-1:2] *= 4.0`, `weights[2:n-1:2] *= 2.0`. -/
+  (List.range (Gen.OneD.Simpson.pointsLen n)).map (Gen.OneD.Simpson.pointAt n)
 def weights (n : Nat) : List K :=
-  mulSlice 2 (n - 1) 2 ((2 : Nat) : K) (mulSlice 1 (n - 1) 2 ((4 : Nat) : K)
-    ((List.range n).map fun _ => ((2 : Nat) : K) * ((1 : Nat) : K) / ((3 * (n - 1) : Nat) : K)))
+  (List.range (Gen.OneD.Simpson.weightsLen n)).map (Gen.OneD.Simpson.weightAt n)
 def make [LT K] [DecidableLT K] (npoints : Int) : Except Err (Grid1D K) :=
-  if npoints ≤ 1 then .error .valueError else
-  if npoints % 2 = 0 then .error .valueError else
+  if Gen.OneD.Simpson.rejects npoints then .error .valueError else
   let n := npoints.toNat
-  oneDGrid (points n) (weights n) negOne (some one)
+  oneDGrid (points n) (weights n) Gen.OneD.Simpson.lo Gen.OneD.Simpson.hi
 end Simpson
 
 namespace MidPoint
-/-- `-1 + (2 * np.arange(n) + 1) / n` -/
 def points (n : Nat) : List K :=
-  (List.range n).map fun i => -((1 : Nat) : K) + ((2 * i + 1 : Nat) : K) / ((n : Nat) : K)
-/-- `2 * np.ones(n) / n` -/
+  (List.range (Gen.OneD.MidPoint.pointsLen n)).map (Gen.OneD.MidPoint.pointAt n)
 def weights (n : Nat) : List K :=
-  (List.range n).map fun _ => ((2 : Nat) : K) * ((1 : Nat) : K) / ((n : Nat) : K)
+  (List.range (Gen.OneD.MidPoint.weightsLen n)).map (Gen.OneD.MidPoint.weightAt n)
 def make [LT K] [DecidableLT K] (npoints : Int) : Except Err (Grid1D K) :=
-  if npoints ≤ 1 then .error .valueError else
+  if Gen.OneD.MidPoint.rejects npoints then .error .valueError else
   let n := npoints.toNat
-  oneDGrid (points n) (weights n) negOne (some one)
+  oneDGrid (points n) (weights n) Gen.OneD.MidPoint.lo Gen.OneD.MidPoint.hi
 end MidPoint
 
 namespace UniformInteger
-/-- `np.arange(n)`, `np.ones(n)`, domain `(0, inf)`. -/
-def points (n : Nat) : List K := (List.range n).map fun i => ((i : Nat) : K)
-def weights (n : Nat) : List K := (List.range n).map fun _ => ((1 : Nat) : K)
+def points (n : Nat) : List K :=
+  (List.range (Gen.OneD.UniformInteger.pointsLen n)).map (Gen.OneD.UniformInteger.pointAt n)
+def weights (n : Nat) : List K :=
+  (List.range (Gen.OneD.UniformInteger.weightsLen n)).map (Gen.OneD.UniformInteger.weightAt n)
 def make [LT K] [DecidableLT K] (npoints : Int) : Except Err (Grid1D K) :=
-  if npoints ≤ 1 then .error .valueError else
+  if Gen.OneD.UniformInteger.rejects npoints then .error .valueError else
   let n := npoints.toNat
-  oneDGrid (points n) (weights n) zero none
+  oneDGrid (points n) (weights n) Gen.OneD.UniformInteger.lo Gen.OneD.UniformInteger.hi
 end UniformInteger
 
-/-! ### closed-form trigonometric rules -/
-
 namespace GaussChebyshevLobatto
-/-- `np.cos(np.arange(n) * np.pi / (n - 1))[::-1]` -/
 def points (n : Nat) : List K :=
-  ((List.range n).map fun i =>
-    Elem.cos (((i : Nat) : K) * Elem.pi / ((n - 1 : Nat) : K))).reverse
-/-- `np.pi * np.sqrt(1 - np.power(points, 2)) / (n - 1)`, both ends halved. -/
+  (List.range (Gen.OneD.GaussChebyshevLobatto.pointsLen n)).map (Gen.OneD.GaussChebyshevLobatto.pointAt n)
 def weights (n : Nat) : List K :=
-  divAt (n - 1) ((2 : Nat) : K) (divAt 0 ((2 : Nat) : K)
-    ((points n).map fun x =>
-      Elem.pi * Elem.sqrt (((1 : Nat) : K) - npow x 2) / ((n - 1 : Nat) : K)))
+  (List.range (Gen.OneD.GaussChebyshevLobatto.weightsLen n)).map (Gen.OneD.GaussChebyshevLobatto.weightAt n)
 def make [LT K] [DecidableLT K] (npoints : Int) : Except Err (Grid1D K) :=
-  if npoints ≤ 1 then .error .valueError else
+  if Gen.OneD.GaussChebyshevLobatto.rejects npoints then .error .valueError else
   let n := npoints.toNat
-  oneDGrid (points n) (weights n) negOne (some one)
+  oneDGrid (points n) (weights n) Gen.OneD.GaussChebyshevLobatto.lo Gen.OneD.GaussChebyshevLobatto.hi
 end GaussChebyshevLobatto
 
 namespace RectangleRuleSineEndPoints
-/-- `np.arange(1, n + 1) / (n + 1)` -/
-def points0 (n : Nat) : List K :=
-  (List.range n).map fun i => ((i + 1 : Nat) : K) / ((n + 1 : Nat) : K)
-/-- `m * np.pi` for `m = np.arange(1, n + 1)` -/
-def mpi (n : Nat) : List K := (List.range n).map fun i => ((i + 1 : Nat) : K) * Elem.pi
-/-- `(1.0 - np.cos(m * np.pi)) / (m * np.pi)` -/
-def bm (n : Nat) : List K :=
-  (mpi n).map fun a => (((1 : Nat) : K) - Elem.cos a) / a
-/-- `np.sin(np.outer(m * np.pi, points))` -/
-def sim (n : Nat) : List (List K) :=
-  (mpi n).map fun a => (points0 n).map fun x => Elem.sin (a * x)
-/-- `2 * points - 1` -/
 def points (n : Nat) : List K :=
-  (points0 n).map fun x => ((2 : Nat) : K) * x - ((1 : Nat) : K)
-/-- `bm @ sim`, `*= 2 / (n + 1)`, `*= 2` -/
+  (List.range (Gen.OneD.RectangleRuleSineEndPoints.pointsLen n)).map (Gen.OneD.RectangleRuleSineEndPoints.pointAt n)
 def weights (n : Nat) : List K :=
-  (vecMat (bm n) (sim n) n).map fun w =>
-    w * (((2 : Nat) : K) / ((n + 1 : Nat) : K)) * ((2 : Nat) : K)
+  (List.range (Gen.OneD.RectangleRuleSineEndPoints.weightsLen n)).map (Gen.OneD.RectangleRuleSineEndPoints.weightAt n)
 def make [LT K] [DecidableLT K] (npoints : Int) : Except Err (Grid1D K) :=
-  if npoints ≤ 1 then .error .valueError else
+  if Gen.OneD.RectangleRuleSineEndPoints.rejects npoints then .error .valueError else
   let n := npoints.toNat
-  oneDGrid (points n) (weights n) negOne (some one)
+  oneDGrid (points n) (weights n) Gen.OneD.RectangleRuleSineEndPoints.lo Gen.OneD.RectangleRuleSineEndPoints.hi
 end RectangleRuleSineEndPoints
+
+/-! ### Clenshaw–Curtis and Fejér (integer skeleton of the series from `Gen`) -/
 
 namespace ClenshawCurtis
 open Gen.OneD.ClenshawCurtis in
@@ -256,6 +234,43 @@ def make [LT K] [DecidableLT K] (npoints : Int) : Except Err (Grid1D K) :=
   if Gen.OneD.FejerSecond.bjLen n ≠ Gen.OneD.FejerSecond.jLen n then .error .valueError else
   oneDGrid (points n) (weights n) negOne (some one)
 end FejerSecond
+
+/-! ### Fejér-2 with the complete sine series — **hand-written, NOT a model of the code**
+
+`FejerSecond.__init__` stops its sine series one term early (known finding `onedgrid.FejerSecond`).
+The definition below is what the rule's mathematical definition prescribes
+(`wᵢ = 4 sin θᵢ/(n+1) · Σ_{j=1}^{⌊(n+1)/2⌋} sin((2j-1)θᵢ)/(2j-1)`, `θᵢ = (i+1)π/(n+1)`); nothing in it is
+taken from the source.  `Props/C01/Fejer2.lean` proves it exact on degree `≤ n-1` for every `n` and
+expresses the weights of the code as "corrected weight minus the missing term". -/
+
+namespace FejerSecondCorrected
+/-- `θᵢ = π (i + 1) / (n + 1)` -/
+def theta (n i : Nat) : K :=
+  Elem.pi * (((i : Nat) : K) + ((1 : Nat) : K)) / (((n : Nat) : K) + ((1 : Nat) : K))
+/-- number of terms of the complete series: `⌊(n+1)/2⌋` -/
+def terms (n : Nat) : Nat := (n + 1) / 2
+/-- the `l`-th term (`j = l + 1`) of the sine series at the angle `t`: `sin((2j-1)t)/(2j-1)` -/
+def term (l : Nat) (t : K) : K :=
+  Elem.sin (((2 * l + 1 : Nat) : K) * t) / ((2 * l + 1 : Nat) : K)
+/-- weight at the angle `θᵢ` with a series of `J` terms -/
+def weightAt (J n i : Nat) : K :=
+  ((4 : Nat) : K) * Elem.sin (theta n i) * Gen.OneD.gsum J (fun l => term l (theta n i))
+    / (((n : Nat) : K) + ((1 : Nat) : K))
+/-- the term `j = ⌊(n+1)/2⌋` that the code leaves out, as a contribution to the weight at `θᵢ` -/
+def missingAt (n i : Nat) : K :=
+  ((4 : Nat) : K) * Elem.sin (theta n i) * term (terms n - 1) (theta n i)
+    / (((n : Nat) : K) + ((1 : Nat) : K))
+/-- nodes in ascending order (`cos θᵢ` reversed) — the same nodes as the code -/
+def points (n : Nat) : List K := ((List.range n).map fun i => Elem.cos (theta n i)).reverse
+/-- corrected weights, listed with the ascending nodes -/
+def weights (n : Nat) : List K := ((List.range n).map (weightAt (terms n) n)).reverse
+/-- the missing-term contributions, listed with the ascending nodes -/
+def missing (n : Nat) : List K := ((List.range n).map (missingAt n)).reverse
+def make [LT K] [DecidableLT K] (npoints : Int) : Except Err (Grid1D K) :=
+  if npoints ≤ 1 then .error .valueError else
+  let n := npoints.toNat
+  oneDGrid (points n) (weights n) negOne (some one)
+end FejerSecondCorrected
 
 /-! ### wrappers around NumPy/SciPy Gauss rules (`gauss n = (points, weights)` of the library call) -/
 
